@@ -134,9 +134,9 @@ _l1.types = {"new_chunk_chars": "char", "divides": "int"}
 
 cutter = Contract(
     M + "width_aware_slice", "C10", ["s", "start", "end", "replacement_char"], defaults={"replacement_char": " "},
-    shapes=[Shape("columns", dict(s=StrT(plain=False), start=IntT(0), end=IntT(), replacement_char=ConstT(" ")),
+    shapes=[Shape("columns", dict(s=StrT(plain=False), start=IntT(), end=IntT(), replacement_char=ConstT(" ")),
                   requires=lambda a: column_definitions(a.s))],
-    requires=lambda a: And(a.start >= 0, T.WCS(a.s) >= 0) if z3.is_expr(a.s) or z3.is_expr(a.start) else True,
+    requires=lambda a: (T.WCS(a.s) >= 0) if z3.is_expr(a.s) or z3.is_expr(a.start) else True,      # any start, any end (negative: before the run)
     ensures=_cut_ensures, result=StrT(plain=False),
     callees={"wcwidth": "ext:formatstring.wcwidth", "interval_overlap": M + "interval_overlap"},
     loops={0: _l0, 1: _l1})
